@@ -2,97 +2,35 @@
 
 Exhaustive exploration of tree-alphabet histories; after EVERY close along the way (each
 `reopen` and the final close) the independent validator mc.rawh5.validate runs on the
-bytes.  See DESIGN.md §4 C02.
+bytes.  DESIGN.md §4 C02.
 """
 
 from __future__ import annotations
 
-from .. import core, explorer, rawh5, treecheck, treeops
+from .. import treecheck
+from ..treeprop import DROP_ASC, DROP_DESC, HOLD_ASC, HOLD_DESC, TreeProp
 
-ALPHA = {
-    "ops": ["rename", "flag", "values", "meta", "mk_group", "mk_obj", "add_data", "pg_add", "pg_rm", "pg_del",
-            "move", "copy", "rm_ws", "rm_par", "reopen", "gc"],
-    "flags": ("allow_delete",),
-    "classes": ("Points", "Curve"),
-    "dkinds": ("fv", "to"),
-    "pgs": ("P", "Q"),
-    "caps": {"groups": 3, "objects": 3, "data_per_object": 3, "entities": 12},
-    "ws2": True,
-    "move_data": True,
-    "copy_data": True,
-}
+QUICK = [
+    ("S1", DROP_ASC, 2, "FULL"),
+    ("S2", HOLD_DESC, 1, "FULL"),
+    ("S2r", DROP_ASC, 1, "FULL"),
+    ("S0", DROP_ASC, 3, "FULL"),
+    ("S2", HOLD_DESC, 2, "STRUCT"),
+    ("S1r", DROP_ASC, 2, "STRUCT"),
+]
+THOROUGH = []
+for _c in (DROP_ASC, HOLD_DESC, DROP_DESC, HOLD_ASC):
+    THOROUGH += [("S1", _c, 3, "FULL"), ("S2", _c, 2, "FULL"), ("S2r", _c, 2, "FULL"), ("S0", _c, 4, "FULL"),
+                 ("S2", _c, 3, "STRUCT"), ("S1", _c, 4, "STRUCT"), ("S1r", _c, 3, "STRUCT")]
 
-
-WANT = ()  # C02 looks at the bytes only
-
-
-def body(ex, obs):
-    return {
-        "key": obs["key"],
-        "model_key": obs["model_key"],
-        "viol": treecheck.clauses_c02(ex, obs),
-        "succ": treeops.enabled(ex.model, ALPHA),
-        "outcome": core.digest([ex.results, rawh5.validate(obs["bytes"]) == [], sorted(k[0] + k[1][:4] for k in rawh5.tree(obs["bytes"])["nodes"])]),
-    }
-
-
-def run_one(history):
-    return treecheck.execute_forked(history, body, WANT)
-
-
-def replay(history):
-    """Plain replay: fresh workspace, no fork, no explorer."""
-    return body(*treecheck.execute(history, WANT))["viol"]
-
-
-def plan(ctx):
-    cfgs = [
-        {"uid_order": "asc", "policy": "drop"},
-        {"uid_order": "desc", "policy": "hold"},
-    ]
-    if ctx.quick:
-        return [("S1", cfgs[0], 2), ("S2", cfgs[1], 2), ("S2r", cfgs[0], 1), ("S0", cfgs[0], 3)]
-    cfgs += [{"uid_order": "desc", "policy": "drop"}, {"uid_order": "asc", "policy": "hold"}]
-    out = []
-    for c in cfgs:
-        out += [("S1", c, 3), ("S2", c, 3), ("S2r", c, 2), ("S0", c, 4), ("S1r", c, 3)]
-    return out
-
-
-def run(ctx):
-    budget = {"reopen": 1, "gc": 1} if ctx.quick else {"reopen": 2, "gc": 2}
-    total = {"states": 0, "transitions": 0, "model_states": 0}
-    runs = []
-    first = last = None
-    for scene, cfg, depth in plan(ctx):
-        seed_h = {"property": "C02", "cfg": cfg, "scene": scene, "ops": []}
-        st = explorer.explore(ctx, run_one, [seed_h], depth, cost=treeops.deviations, budget=budget)
-        runs.append({"scene": scene, "cfg": cfg, "depth": depth, **{k: st[k] for k in ("states", "transitions", "model_states", "levels")}})
-        for k in total:
-            total[k] += st[k]
-        first = first or seed_h
-        last = seed_h
-    probe = dict(last, ops=[["mk_group", "root"], ["reopen"], ["copy", 0, "root2", True]])
-    ndet = explorer.determinism_check(run_one, [first, probe])
-    # forked execution must agree with the plain in-process replay path
-    for h in (first, probe):
-        a, b = run_one(h), body(*treecheck.execute(h, WANT))
-        if core.jdump(a) != core.jdump(b):
-            raise core.HarnessError(f"forked and plain execution disagree on {h}")
-    ctx.cover(
-        states=total["states"],
-        transitions=total["transitions"],
-        traces_validated_against_impl=total["transitions"],
-        model_states=total["model_states"],
-        distinct_outcomes=len(ctx.outcomes),
-        deviation_budget_completed=budget,
-        alphabet=ALPHA,
-        runs=runs,
-        determinism_replays=ndet,
-        exhaustive=True,
-        bound="all histories over the tree alphabet up to the per-scene depth listed in runs, validator after every close",
-    )
-    ctx.assumptions += [
+P = TreeProp(
+    "C02",
+    treecheck.clauses_c02,
+    (),
+    QUICK,
+    THOROUGH,
+    assumptions=[
         "validator implements docs/content/geoh5_format/hierarchy/*.rst; concatenated (drillhole) content is validated by C04",
-        "bounded: entity caps and depths as listed; nothing claimed beyond",
-    ]
+    ],
+)
+run, replay = P.run, P.replay
